@@ -308,7 +308,85 @@ def chk_vega(case, acc, seed):
     acc.case(case, outcome='vega')
 
 
-DISPATCH = {'wave': chk_wave_triple, 'flux': chk_flux_triple, 'to': chk_to_bfs, 'planck': chk_planck, 'wien': chk_wien_sb, 'vega': chk_vega}
+def chk_regrid(case, acc, seed):
+    """history: convert the flux unit, give the spectrum another wavelength grid with the same end points and length, convert again"""
+    wu, vu = case['wu'], case['vu']
+    for f1 in FNAMES:
+        for f2 in FNAMES:
+            s = start_spectrum(wu, vu, seed)
+            try:
+                s.to(f1)
+                w = np.asarray(s.wave, float)
+                neww = np.geomspace(w[0], w[-1], len(w)) if case['how'] == 'geom' else np.concatenate([[w[0]], (w[1:-1] + w[2:]) / 2, [w[-1]]])
+                neww[0], neww[-1] = w[0], w[-1]
+                if case['via'] == 'setter':
+                    s.wave = neww
+                else:
+                    s.resample(neww, waveunit=s.waveunit)
+                ref2 = si(s)                      # the physical spectrum as it is now, by the independent model
+                s.to(f2)
+                got = si(s)
+            except Exception as e:
+                acc.violation(f'to:regrid:raises:{type(e).__name__}', dict(case, f1=f1, f2=f2), repr(e))
+                continue
+            if not (np.allclose(got[0], ref2[0], rtol=1e-10) and np.allclose(got[1], ref2[1], rtol=1e-9)):
+                acc.violation('to:flux:after-regrid', dict(case, f1=f1, f2=f2),
+                              f'{f1} -> new grid (same end points) -> {f2}: value ratio {np.max(np.abs(got[1] / ref2[1] - 1)):.3e} off the physical spectrum')
+            acc.transitions += 1
+    acc.cls('regrid')
+    acc.case(case, outcome='regrid')
+
+
+def chk_arith_units(case, acc, seed):
+    """a per-wavelength density on the right of a spectrum operation, given in another wavelength unit"""
+    wu1, wu2, vu = case['wu1'], case['wu2'], case['vu']
+    a = start_spectrum(wu1, vu, seed)
+    b = start_spectrum(wu2, vu, seed + 1)
+    bb = b.copy(); bb.to(CANON[wu1])
+    for opn in ('add', 'subtract'):
+        try:
+            r1 = getattr(a.copy(), opn)(b.copy())
+            r2 = getattr(a.copy(), opn)(bb.copy())
+        except Exception as e:
+            acc.violation(f'arith:raises:{type(e).__name__}', dict(case, op=opn), repr(e))
+            continue
+        g1, g2 = si(r1), si(r2)
+        if g1[0].shape != g2[0].shape:
+            ok = np.allclose(np.interp(g2[0], g1[0], g1[1]), g2[1], rtol=1e-6)
+        else:
+            ok = np.allclose(g1[0], g2[0], rtol=1e-9) and np.allclose(g1[1], g2[1], rtol=1e-8, atol=1e-300)
+        if not ok:
+            acc.violation('arith:density-in-other-unit', dict(case, op=opn), f'a {opn} b with b in {wu2} differs physically from the same b converted to {wu1} first')
+    acc.cls('arith-units')
+    acc.case(case, outcome='arith')
+
+
+def chk_vegamag(case, acc, seed):
+    import sys
+    rad = sys.modules['lentil.radiometry']
+    band, wu0, vu = case['band'], case['wu0'], case['vu']
+    lam_m = np.array([4.5e-7, 5.5e-7, 6.5e-7, 9e-7])
+    try:
+        bb = rad.Blackbody.vegamag(lam_m / IN_M[wu0], 5000.0, 3.0, band, waveunit=wu0, valueunit=vu)
+        base = np.asarray(bb.value, float) / IN_M[wu0]      # per metre of wavelength, flux unit left as it is
+    except Exception as e:
+        acc.violation(f'vegamag:raises:{type(e).__name__}', case, repr(e))
+        return
+    for wu in ('m', 'um', 'nm', 'angstrom'):
+        try:
+            v = np.asarray(bb.sample(lam_m / IN_M[wu], waveunit=wu), float)
+        except Exception as e:
+            acc.violation(f'vegamag:sample:raises:{type(e).__name__}', dict(case, wu=wu), repr(e))
+            continue
+        phys = v / IN_M[wu]
+        if not np.allclose(phys, base, rtol=1e-9):
+            acc.violation('vegamag:sample-unit-dependence', dict(case, wu=wu),
+                          f'a Vega-magnitude blackbody built in {wu0} and sampled in {wu} is {np.max(phys / base):.6g} times its own values')
+    acc.cls('vegamag')
+    acc.case(case, outcome='vegamag')
+
+
+DISPATCH = {'regrid': chk_regrid, 'arith': chk_arith_units, 'vegamag': chk_vegamag, 'wave': chk_wave_triple, 'flux': chk_flux_triple, 'to': chk_to_bfs, 'planck': chk_planck, 'wien': chk_wien_sb, 'vega': chk_vega}
 
 
 def t_triples(arg, acc):
@@ -329,6 +407,19 @@ def t_to(arg, acc):
     chk_to_bfs({'kind': 'to', 'wu': arg['wu'], 'vu': arg['vu'], 'depth': arg['depth'], 'ival': arg.get('ival', False)}, acc, arg['seed'])
 
 
+def t_extra(arg, acc):
+    seed = arg['seed']
+    for wu in ('m', 'um', 'nm', 'angstrom'):
+        for vu in FNAMES:
+            for how in ('geom', 'mid'):
+                for via in ('setter', 'resample'):
+                    chk_regrid({'kind': 'regrid', 'wu': wu, 'vu': vu, 'how': how, 'via': via}, acc, seed)
+            for wu2 in ('m', 'um', 'nm', 'angstrom'):
+                chk_arith_units({'kind': 'arith', 'wu1': wu, 'wu2': wu2, 'vu': vu}, acc, seed)
+        for band in ('U', 'V', 'R', 'J', 'K'):      # photon units only: the magnitude scaling is defined on photon fluxes
+            chk_vegamag({'kind': 'vegamag', 'band': band, 'wu0': wu, 'vu': 'photlam'}, acc, seed)
+
+
 def t_planck(arg, acc):
     for wu in WNAMES:
         for vu in FNAMES:
@@ -347,6 +438,7 @@ def run(tier, seed, acc, procs=None):
             tasks.append(('t_to', {'seed': seed, 'wu': wu, 'vu': vu, 'depth': depth - 1, 'ival': True}))
     for T in (300, 3000, 5778, 20000):
         tasks.append(('t_planck', {'seed': seed, 'T': T}))
+    tasks.append(('t_extra', {'seed': seed}))
     acc.states += 1
     acc.transitions += len(tasks)
     engine.run_parallel(MOD, tasks, acc, procs)
@@ -358,7 +450,7 @@ def run(tier, seed, acc, procs=None):
         'bounds': {'to_depth': depth, 'temperatures': [300, 3000, 5778, 20000], 'wavelength_names': WNAMES, 'flux_names': FNAMES},
         'assumptions': ["the library's own values of h, c, k are used (the statement is about consistency)",
                         'reference Planck function in longdouble with expm1'],
-        'require': {'wave-triples': 343, 'flux-triples': 27, 'planck': 80, 'wien-sb': 16, 'vega': 12, 'refused': 10, 'to-pairs': 100},
+        'require': {'wave-triples': 343, 'flux-triples': 27, 'planck': 80, 'wien-sb': 16, 'vega': 12, 'refused': 10, 'to-pairs': 100, 'regrid': 40, 'arith-units': 40, 'vegamag': 20},
     }
 
 
